@@ -49,6 +49,82 @@ func runC14(c *core.Ctx) {
 	c14R4(c)
 	c14R5(c, "C14.R5")
 	c14R6(c)
+	c14R7(c)
+}
+
+// c14R7: the ban lookup reads the replicated state under the ban's own key and type.
+func c14R7(c *core.Ctx) {
+	rule := "C14.R7"
+	c.Rule(rule, "Swarm.Contains(ev) returns s.state.Has(ev); State.Has addresses subsets[ev.unitType()] with ev.Key() (C04.R8); Ban.Key is the key string itself and Ban.unitType the ban subset; Durable.Has/Get answer from fetch, which returns the cached value only when the cache holds one and otherwise reads the store inside a read transaction and caches exactly what it read under the same key", 4)
+	if f := fn(c, rule, "internal/service/cluster", "Swarm", "Contains"); f != nil {
+		calls := eng.Calls(f, false, M+"event.State.Has")
+		ok := len(calls) == 1
+		if ok {
+			a := eng.CallArgs(calls[0].Common())
+			_, isState := eng.LoadOfField(a[0], "state")
+			ok = isState && a[1] == f.Params[1]
+			for _, rv := range eng.ResultValues(f, 0) {
+				if rv != calls[0].Value() {
+					ok = false
+				}
+			}
+		}
+		c.Check(ok, rule, fnName(f)+":reads the replicated state", f.Pos(), "Contains(ev) = s.state.Has(ev)", "Swarm.Contains does not return s.state.Has(ev)")
+	}
+	if f := fn(c, rule, "internal/event", "Ban", "Key"); f != nil {
+		ok := false
+		for _, rv := range eng.ResultValues(f, 0) {
+			if eng.StripConv(rv) == ssa.Value(f.Params[0]) {
+				ok = true
+			}
+		}
+		c.Check(ok, rule, fnName(f)+":identity", f.Pos(), "a ban is keyed by the key string itself", "Ban.Key is not the banned key string")
+	}
+	if f := fn(c, rule, "internal/event", "Ban", "unitType"); f != nil {
+		tb := c.P.Const("internal/event", "typeBan")
+		ok := false
+		if tb != nil {
+			want, _ := constInt64(tb)
+			for _, rv := range eng.ResultValues(f, 0) {
+				if k, isC := eng.ConstInt(rv); isC && k == want {
+					ok = true
+				}
+			}
+		}
+		c.Check(ok, rule, fnName(f)+":ban subset", f.Pos(), "bans live in the typeBan subset", "Ban.unitType is not typeBan")
+	}
+	if f := fn(c, rule, "internal/event/crdt", "Durable", "fetch"); f != nil {
+		gets := eng.Calls(f, false, "github.com/coocood/freecache.Cache.Get")
+		sets := eng.Calls(f, false, idCacheSet)
+		txg := eng.Calls(f, false, "github.com/tidwall/buntdb.Tx.Get")
+		ok := len(gets) == 1 && len(sets) == 1 && len(txg) == 1
+		if ok {
+			// cache key on both sides is the same value; the value cached derives from the store read
+			ok = eng.SameValue(eng.CallArgs(gets[0].Common())[1], eng.CallArgs(sets[0].Common())[1])
+			hit := errNilPred("cache hit", gets[0].Value(), 1)
+			// the store is consulted only on a miss
+			if g := eng.Guarded(txg[0], eng.Pred{Name: "cache miss", Match: func(a eng.Atom) (bool, bool) {
+				w, m := hit.Match(a)
+				return !w, m
+			}}); !g.Guarded || g.Edges == 0 {
+				ok = false
+			}
+			found := errNilPred("store hit", txg[0].Value(), 1)
+			if g := eng.Guarded(sets[0], found); !g.Guarded || g.Edges == 0 {
+				ok = false
+			}
+			if call, isCall := eng.CallArgs(sets[0].Common())[2].(*ssa.Call); isCall {
+				if !isExtractOf(eng.CallArgs(&call.Call)[0], txg[0].Value(), 0) {
+					ok = false
+				}
+			} else {
+				ok = false
+			}
+			// the item looked up is the parameter
+			ok = ok && eng.CallArgs(txg[0].Common())[1] == f.Params[1]
+		}
+		c.Check(ok, rule, fnName(f)+":cache mirrors the store", f.Pos(), "a miss reads the store for the same item and caches exactly that value", "Durable.fetch does not fill the cache with exactly what the store holds for the requested item")
+	}
 }
 
 func c14R1(c *core.Ctx) {
